@@ -178,7 +178,37 @@ def main(tier):
                 cases.append(rel.case("s%d_%s" % (n, nm), t))
             if forms:
                 shorts[n] = [(nm, apidoc.render(fd)[0]) for nm, fd in forms]
+    # prefixes that differ only in letter case are different prefixes
+    casecases = {}
+    simple = {"verb": "GET", "annot": "", "desc": "", "tags": [], "query": "", "reqHeaders": False, "pathdecl": [],
+              "req": {"form": "none", "b": {"k": "none", "n": "", "props": [], "allOf": []}},
+              "resps": [{"code": "200", "annot": "", "spec": {"form": "param", "b": {"k": "any", "n": "", "props": [], "allOf": []}}, "headers": False}]}
+
+    def urlb(path, decl):
+        return {"t": "url", "path": path, "tags": [], "pathdecl": decl, "methods": [copy.deepcopy(simple)]}
+    for k, (a, b, declb) in enumerate([(["zcase", "{zi}"], ["ZCASE", "{zi}", "x"], []), (["zcase", "{zi}"], ["Zcase", "{zi}"], ["zi"]),
+                                       (["zCase", "{zi}", "y"], ["zcase", "{zi}", "y"], []), (["v1", "Users", "{zi}"], ["v1", "users", "{zi}"], ["zi"])]):
+        d = (docs[k]["doc"] if k < len(docs) and docs[k]["valid"] else []) + [urlb(a, ["zi"]), urlb(b, declb)]
+        text = apidoc.render(d)[0]
+        cases.append(rel.case("cs%d" % k, text))
+        casecases["cs%d" % k] = (text, "http GET /" + "/".join(a), ["zi"], "http GET /" + "/".join(b), declb)
     obs = harness("run", cases)
+    for cid, (text, ia, va, ib, vb) in casecases.items():
+        o = obs[cid]
+        chk.evaluations += 1
+        chk.traces += 1
+        chk.nontrivial.add(text)
+        bad = None
+        if o["outcome"] != "ok":
+            bad = "two paths that differ in letter case are not accepted: %s" % rel.describe(o)
+        else:
+            have = {i["id"]: i["pathvars"] for i in apidoc.project(o["json"])[0]["interactions"]}
+            for iid, want in ((ia, va), (ib, vb)):
+                if have.get(iid) != want:
+                    bad = "pathVariables of %s: %s, declared for exactly this prefix: %s" % (iid, have.get(iid), want)
+        if bad:
+            sig = {"what": "letter case"}
+            chk.violation(bad + " | document:\n" + text[-600:], {"kind": "path_case", "file": text, "observed": o, "signature": sig}, sig)
     for cid, (m, text) in meta.items():
         o = obs[cid]
         chk.evaluations += 1
